@@ -474,7 +474,11 @@ func (g *gen) randomOp() {
 				kind = "p:nosuch2"
 			}
 		}
-		g.add("%s %d %s %d %s", g.pick([]string{"req", "res"}), g.t, g.addr(g.host(), -1), g.peer(), kind)
+		op := g.pick([]string{"req", "res"})
+		if rng.Intn(3) == 0 {
+			kind = g.randomEnvTok(op == "req")
+		}
+		g.add("%s %d %s %d %s", op, g.t, g.addr(g.host(), -1), g.peer(), kind)
 	case r < 93:
 		g.add("disc %d", g.peer())
 	case r < 95:
@@ -636,7 +640,7 @@ func (prop) Generate(rng *rand.Rand, tier string) []corr.Case {
 		}
 		cases = append(cases, genCase(rng, tag))
 	}
-	return cases
+	return append(cases, envelopeCases(rng, tier)...)
 }
 
 // ---------------------------------------------------------------------------------------------
@@ -1204,7 +1208,14 @@ func (r *runner) stepNode(n *p2p.VerifNode, w []string, op string) string {
 		isReq := w[0] == "req"
 		var data []byte
 		proc := ""
-		if strings.HasPrefix(kind, "bad") {
+		reset, verdict := false, "" // raw-stream kinds (envelope.go): table verdict of the shape
+		envMissed := false
+		if isEnvTok(kind) {
+			var ok bool
+			if data, reset, verdict, proc, ok = parseEnvTok(kind); !ok {
+				return "bad-op"
+			}
+		} else if strings.HasPrefix(kind, "bad") {
 			data = badPayloads[atoi(kind[3:])]
 		} else {
 			proc = kind[2:]
@@ -1218,27 +1229,66 @@ func (r *runner) stepNode(n *p2p.VerifNode, w []string, op string) string {
 			}
 		}
 		before := n.Handled
+		scoreBefore := 0
+		if a.ipKey != "" {
+			scoreBefore, _, _ = n.Score(keyToIPString(a.ipKey))
+		}
 		r.at(t, func() {
-			if isReq {
+			switch {
+			case reset && isReq:
+				n.OnRequestReset(peerIDs[pid], a.maddr(), data)
+			case reset:
+				n.OnResponseReset(peerIDs[pid], a.maddr(), data)
+			case isReq:
 				n.OnRequest(peerIDs[pid], a.maddr(), data)
-			} else {
+			default:
 				n.OnResponse(peerIDs[pid], a.maddr(), data)
 			}
 		})
 		d, closed := r.closedStr()
 		_, registered := r.procs[proc]
 		cstr := "-"
+		if verdict != "" {
+			// the table of degenerate envelopes: the row's verdict must still be the one of the code
+			scoreAfter := 0
+			if a.ipKey != "" {
+				scoreAfter, _, _ = n.Score(keyToIPString(a.ipKey))
+			}
+			shape := fmt.Sprintf("%s stream delivering %d bytes (%s), %s by the remote", w[0], len(data), hex.EncodeToString(data), map[bool]string{true: "reset", false: "closed"}[reset])
+			switch {
+			case verdict == envBan && r.started && a.ipKey != "" && scoreAfter < scoreBefore+p2p.VerifMaxPenaltyScore:
+				envMissed = true // follow the implementation from here on, so that one defect is reported once
+				r.fail("c18-malformed-envelope-not-penalised", fmt.Sprintf("%s: %s: table verdict BAN, but the score of the sender's IP went %d -> %d (ClosePeer calls %v)", op, shape, scoreBefore, scoreAfter, closed))
+			case verdict == envBan && n.Handled != before:
+				r.fail("c18-malformed-envelope-not-penalised", fmt.Sprintf("%s: %s: table verdict BAN, but the handler ran", op, shape))
+			case verdict == envNone && (scoreAfter != scoreBefore || len(closed) > 0 || n.Handled != before):
+				r.fail("c18-wellformed-penalised", fmt.Sprintf("%s: %s: no envelope was received (table verdict NONE), but score %d -> %d, ClosePeer %v, handler runs %d", op, shape, scoreBefore, scoreAfter, closed, n.Handled-before))
+			case verdict == envWell && !registered:
+				return "bad-op"
+			}
+		}
+		if verdict == envNone {
+			return fmt.Sprintf("h=%d %s s=%s c=-", n.Handled, d, r.entryStr(a))
+		}
 		if proc != "" && registered {
 			// well-formed traffic for a registered procedure: only the rate limit may penalise
 			r.counts[proc+"|"+w[3]]++
+			nFails := len(r.fails)
 			penalised := r.refCheckLimit(op, w[0], t, proc, pid, a, closed)
+			if verdict == envWell {
+				for i := nFails; i < len(r.fails); i++ {
+					if strings.HasPrefix(r.fails[i].Sig, "legal-traffic-") {
+						r.fails[i].Sig = "c18-wellformed-penalised"
+					}
+				}
+			}
 			wantHandled := isReq && !penalised
 			if (n.Handled-before == 1) != wantHandled {
 				r.fail("request-handling", fmt.Sprintf("%s: handler invoked %d times, want invoked=%v", op, n.Handled-before, wantHandled))
 			}
 			c, _ := n.RLCount(proc, peerIDs[pid])
 			cstr = strconv.Itoa(c)
-		} else {
+		} else if !envMissed {
 			// malformed envelope or unknown procedure: ban
 			applied, reached := r.refPathPenalty(t, addrTok{ipKey: a.ipKey, pid: pid}, p2p.VerifMaxPenaltyScore)
 			if applied {
@@ -1360,6 +1410,11 @@ func (prop) Classify(c corr.Case, out []string) string {
 			f := strings.Fields(o)
 			if len(f) == 4 && f[3] == "c=0" && strings.HasPrefix(w[4], "p:") {
 				kinds["rate-penalty"] = true
+			}
+			if isEnvTok(w[4]) {
+				if _, _, v, _, ok := parseEnvTok(w[4]); ok {
+					kinds["envelope-"+v] = true
+				}
 			}
 		case "connect":
 			if o == "refused" {
